@@ -1,4 +1,5 @@
 """c20 — generation modes agree: source-map = base code (theorem + token streams); modifier vs base differential."""
+import corpus_common
 import gen_common
 import gen_modes
 import probes
@@ -10,6 +11,7 @@ PID = "C20"
 def run(chk):
     chk.recheck_proofs()
     gen_modes.apply(chk, PID)
+    corpus_common.apply(chk, PID)
     base, _ = probes.run_probe("F10base")
     verdict, detail = probes.run_probe("F10")
     chk.count(2, key=("probe", "F10"))
